@@ -829,8 +829,12 @@ class Interp:
         is_for = while_test is None
         zero = 0
         # 1. invariant holds on entry
-        for lab, f in spec.inv(self, env, zero):
-            cx.oblige(f"{q.split('.')[-1]}::inv.init.{tag}.{lab}", f, "inv")
+        for ent in spec.inv(self, env, zero):
+            lab, f = ent[0], ent[1]
+            if len(ent) > 2 and ent[2] is not None:
+                cx.oblige_from(f"{q.split('.')[-1]}::inv.init.{tag}.{lab}", f, ent[2], "inv")
+            else:
+                cx.oblige(f"{q.split('.')[-1]}::inv.init.{tag}.{lab}", f, "inv")
         names, mutated = self.modified_names(st.body + ([] if is_for else []))
         if is_for:
             tnames, _ = self.modified_names([ast.Assign(targets=[st.target], value=ast.Constant(0))])
@@ -860,12 +864,12 @@ class Interp:
             # 2. arbitrary iteration: assume inv + guard, run body, show inv again
             if is_for:
                 cx.assume(T.land(T.ge(k.t, 0), T.lt(k.t, n)), "loop counter in range")
-                for lab, f in spec.inv(self, env, k.t):
-                    cx.assume(f, f"inv.{lab}")
+                for ent in spec.inv(self, env, k.t):
+                    cx.assume(ent[1], f"inv.{ent[0]}")
                 self.assign(st.target, item_at(k.t), env)
             else:
-                for lab, f in spec.inv(self, env, None):
-                    cx.assume(f, f"inv.{lab}")
+                for ent in spec.inv(self, env, None):
+                    cx.assume(ent[1], f"inv.{ent[0]}")
                 c = self.eval(while_test, env)
                 if not self.truth(c, "while guard"):
                     raise PathAbort("guard false in body path")
@@ -881,8 +885,13 @@ class Interp:
                         cx.oblige(f"{q.split('.')[-1]}::inv.break.{tag}.{lab}", f, "inv")
                 return
             nxt = T.add(k.t, 1) if is_for else None
-            for lab, f in spec.inv(self, env, nxt):
-                cx.oblige(f"{q.split('.')[-1]}::inv.pres.{tag}.{lab}", f, "inv")
+            for ent in spec.inv(self, env, nxt):
+                lab, f = ent[0], ent[1]
+                if len(ent) > 2 and ent[2] is not None:
+                    # the contract names the hypotheses this step follows from (keeps non-linear queries small)
+                    cx.oblige_from(f"{q.split('.')[-1]}::inv.pres.{tag}.{lab}", f, ent[2], "inv")
+                else:
+                    cx.oblige(f"{q.split('.')[-1]}::inv.pres.{tag}.{lab}", f, "inv")
             if dec0 is not None:
                 dec1 = spec.decreases(self, env)
                 cx.oblige(f"{q.split('.')[-1]}::term.{tag}", T.land(T.lt(dec1, dec0), T.ge(dec0, 0)), "term")
@@ -892,11 +901,11 @@ class Interp:
             if is_for:
                 nn = n
                 cx.assume(T.ge(nn, 0))
-                for lab, f in spec.inv(self, env, nn):
-                    cx.assume(f, f"inv.{lab}@exit")
+                for ent in spec.inv(self, env, nn):
+                    cx.assume(ent[1], f"inv.{ent[0]}@exit")
             else:
-                for lab, f in spec.inv(self, env, None):
-                    cx.assume(f, f"inv.{lab}@exit")
+                for ent in spec.inv(self, env, None):
+                    cx.assume(ent[1], f"inv.{ent[0]}@exit")
                 c = self.eval(while_test, env)
                 if self.truth(c, "while guard at exit"):
                     raise PathAbort("guard true on exit path")
